@@ -18,3 +18,15 @@ register("C14", "exploration",
          "From the written .itp alone: all atom pairs are classified effective (molecule nrexcl or listed exclusion) vs required (bond-graph distance within the larger block nrexcl of the two atoms, or explicit exclusion in a block/applied link) and must agree; uniform nrexcl must be kept without invented exclusions.",
          "bond graph = bonds+constraints of the written file; explicit exclusions taken from the reference model; known finding F22 excluded by construction in 5/6 of the draws",
          "Hypothesis-generated inputs + all-pairs reference predicate", "DESIGN.md 4/C14")
+register("C12", "exploration",
+         "Six kinds of generated sequence input (-seq, .txt, .fasta, .ig, node-link .json, gen_seq specifications incl. connects/termini/labels/from_file) are read with the repository's readers and compared with an independent sequence model (translation tables, terminal suffixes, resids, path/tree/connect edges, circular label); gen_seq output is checked both as JSON text and after reading it back with gen_params' reader.",
+         "0-based connect/sequence ids (as pinned by the repository's tests); generator bounds (<=60 letters, <=4 macros of <=40 residues)",
+         "Hypothesis-generated inputs + reference-model and round-trip oracle", "DESIGN.md 4/C12")
+register("C13", "exploration",
+         "Metamorphic: each generated gen_params case is run again after a generated relabelling / reordering / file-split / interleaved unrelated runs; atoms table, interaction multiset and nrexcl must be identical, and a repeated run must reproduce the file byte for byte apart from the header line.",
+         "order-dependent cases flagged by the reference model are skipped (counted); conflicting links are not permuted; file splitting is only exercised without .itp inputs (see finding F22)",
+         "Hypothesis-generated inputs + metamorphic relation", "DESIGN.md 4/C13")
+register("C19", "exploration",
+         "complement_dsDNA on generated linear/circular strands (graph, .ig, gen_params -dsdna routes) against an independent Watson-Crick model: 2n residues, first strand unchanged, mirrored complement with swapped terminal roles, copied edge labels, no bridging edges, circular closure, involution, unknown names rejected.",
+         "n <= 120; KeyError/IOError both accepted as rejection",
+         "Hypothesis-generated inputs + reference-model oracle + involution", "DESIGN.md 4/C19")
